@@ -1,4 +1,8 @@
 import TantivyModel.Proofs.Merge
+import TantivyModel.Proofs.MergeSteps3
+import TantivyModel.Proofs.MergeWF
+import TantivyModel.Proofs.MergeKeys
+import TantivyModel.Proofs.MergeMulti5
 /-!
 # C04 — Merging never changes the logical content of the index
 
@@ -83,6 +87,82 @@ theorem C04_merge_translation {α} (segs : List (Segment α))
       simp only at hd ht
       rw [hd, ht]
 
+/-- (same sources as `exSegs` below) -/
+def exSegsFwd : List (Segment Nat) :=
+  [ { docs := [7, 8, 9], alive := [true, false, true],
+      terms := [([97], [⟨0, 1, [0]⟩, ⟨1, 2, [1, 3]⟩]), ([98], [⟨1, 1, [0]⟩, ⟨2, 1, [5]⟩])] },
+    { docs := [1], alive := [false], terms := [([98], [⟨0, 1, [2]⟩])] },
+    { docs := [4, 5], alive := [true, true],
+      terms := [([97], [⟨1, 1, [2]⟩]), ([99], [⟨0, 3, [1, 2, 3]⟩])] } ]
+
+/-- THE TERM MERGER: the key list the merge iterates over (`allKeys`, the model of `TermMerger`
+over the sources' term streams) is strictly increasing in byte order and holds exactly the keys
+that occur in some source — whatever order the sources' own lists are in. -/
+theorem C04_term_union_sorted {α} (segs : List (Segment α)) :
+    (allKeys segs).Pairwise KLt ∧
+    ∀ k, k ∈ allKeys segs ↔ ∃ s ∈ segs, ∃ t ∈ s.terms, t.1 = k := by
+  obtain ⟨h1, h2⟩ := keyUnion_props (segs.map fun s => s.terms.map Prod.fst)
+  refine ⟨h1, ?_⟩
+  intro k
+  rw [allKeys, h2]
+  constructor
+  · rintro ⟨ks, hks, hk⟩
+    obtain ⟨s, hs, rfl⟩ := List.mem_map.1 hks
+    obtain ⟨t, ht, rfl⟩ := List.mem_map.1 hk
+    exact ⟨s, hs, t, ht, rfl⟩
+  · rintro ⟨s, hs, t, ht, rfl⟩
+    exact ⟨_, List.mem_map.2 ⟨s, hs, rfl⟩, List.mem_map.2 ⟨t, ht, rfl⟩⟩
+
+/-- the dictionary of the merged segment is strictly sorted by term bytes (what the sstable /
+fst writer requires) and every key of it is a key of some source -/
+theorem C04_merged_dictionary_sorted {α} (segs : List (Segment α)) :
+    ((mergeModel segs).terms.map (·.1)).Pairwise KLt ∧
+    ∀ k ∈ (mergeModel segs).terms.map (·.1), ∃ s ∈ segs, ∃ t ∈ s.terms, t.1 = k := by
+  have hsub : List.Sublist ((mergeModel segs).terms.map (·.1)) (allKeys segs) := by
+    simp only [mergeModel, mergedTerms, List.map_map]
+    have : ∀ (l : List Key) (F : Key → Nat × List Posting),
+        List.Sublist (((l.map fun k => (k, (F k).1, (F k).2)).filter fun t => decide (t.2.1 > 0)).map
+          ((fun t : Key × List Posting => t.1) ∘ fun t : Key × Nat × List Posting => (t.1, t.2.2))) l := by
+      intro l F
+      induction l with
+      | nil => simp
+      | cons k rest ih =>
+        simp only [List.map_cons, List.filter_cons]
+        split
+        · simp only [List.map_cons, Function.comp]
+          exact ih.cons_cons k
+        · exact ih.cons k
+    exact this _ _
+  obtain ⟨h1, h2⟩ := C04_term_union_sorted segs
+  exact ⟨h1.sublist hsub, fun k hk => (h2 k).1 (hsub.subset hk)⟩
+
+example : (mergeModel exSegsFwd).terms.map (·.1) = [[97], [98], [99]] := by decide
+
+/-- CLOSURE UNDER RE-MERGING. The merged segment is again a well-formed merge source: per-doc
+data and alive bitset have equal length, and every posting list of its dictionary is strictly
+increasing in doc id with all ids below `max_doc` (so block encoding and skip lists see what they
+expect). Hence the hypotheses of `C04_merge_translation` hold for merged segments, and the
+translation theorem applies to merges of merged segments, to any depth. -/
+theorem C04_merged_wellformed {α} (segs : List (Segment α))
+    (hlen : ∀ s ∈ segs, s.docs.length = s.alive.length)
+    (hpost : ∀ s ∈ segs, ∀ t ∈ s.terms, postingsOk s.alive.length t.2 = true) :
+    (mergeModel segs).docs.length = (mergeModel segs).alive.length ∧
+    ∀ t ∈ (mergeModel segs).terms, postingsOk (mergeModel segs).alive.length t.2 = true :=
+  mergeModel_wf segs hlen hpost
+
+/-- merges of merged segments: every group is merged, then the results are merged again -/
+theorem C04_merge_translation_iterated {α} (groups : List (List (Segment α)))
+    (hlen : ∀ g ∈ groups, ∀ s ∈ g, s.docs.length = s.alive.length)
+    (hpost : ∀ g ∈ groups, ∀ s ∈ g, ∀ t ∈ s.terms, postingsOk s.alive.length t.2 = true) :
+    dump (mergeModel (groups.map mergeModel)) = mergeSpec (groups.map mergeModel) := by
+  apply C04_merge_translation
+  · intro s hs
+    obtain ⟨g, hg, rfl⟩ := List.mem_map.1 hs
+    exact (mergeModel_wf g (hlen g hg) (hpost g hg)).1
+  · intro s hs
+    obtain ⟨g, hg, rfl⟩ := List.mem_map.1 hs
+    exact (mergeModel_wf g (hlen g hg) (hpost g hg)).2
+
 /-- Translation of postings, per source (the step `write_postings_for_field` performs for each
 `(term, source)` pair): the posting list of source `s` remapped through the filled old→new table
 is exactly the list of its LIVE postings — tf and positions copied unchanged, doc ids
@@ -162,6 +242,11 @@ example : (dump (mergeModel exSegs)).docs = [7, 9, 4, 5] := by decide
 example : ∀ s ∈ exSegs, s.docs.length = s.alive.length := by decide
 example : ∀ s ∈ exSegs, ∀ t ∈ s.terms, postingsOk s.alive.length t.2 = true := by decide
 example : mergedTermFrom (oldToNew exSegs) [98] 0 exSegs = (1, [⟨1, 1, [5]⟩]) := by decide
+example : (mergeModel exSegs).docs.length = (mergeModel exSegs).alive.length ∧
+    ∀ t ∈ (mergeModel exSegs).terms, postingsOk (mergeModel exSegs).alive.length t.2 = true :=
+  C04_merged_wellformed exSegs (by decide) (by decide)
+example : dump (mergeModel ([exSegs, exSegs.take 1].map mergeModel)) = mergeSpec ([exSegs, exSegs.take 1].map mergeModel) :=
+  C04_merge_translation_iterated [exSegs, exSegs.take 1] (by decide) (by decide)
 example : dump (mergeModel exSegs) = mergeSpec exSegs :=
   C04_merge_translation exSegs (by decide) (by decide)
 example : mergedStore (fun i => i == 2) 0 exSegs = [7, 9, 4, 5] := by decide
@@ -361,6 +446,22 @@ theorem C04_target_opstamp_counterexample :
     publishedUids (rollback (endMerge stP bad)) = [11] := by
   decide
 
+/-- Why the machines assume that the stamper never hands out an opstamp twice. After a rollback
+(or reopening the index) the real stamper restarts AT the committed opstamp, so the first
+operation of the new writer carries the commit's own opstamp (C02's recorded finding
+`reopen-first-delete-published-by-merge`). If that operation is a delete, a merge of committed
+segments (target = commit opstamp, comparison `<=`) consumes it: the hypothesis of
+`C04_target_opstamp_committed` fails and the uncommitted delete is published. -/
+theorem C04_repeated_opstamp_counterexample :
+    let a : Entry := { segId := 0, docs := [⟨10, [1]⟩], alive := [true], cursor := 0 }
+    let b : Entry := { segId := 1, docs := [⟨11, [2]⟩], alive := [true], cursor := 0 }
+    let st : State := { queue := [⟨6, 1⟩], committed := [a, b], uncommitted := [],
+                        committedOpstamp := 6, published := [a, b], epoch := 1 }
+    consumed st.queue a.cursor st.committedOpstamp ≠ [] ∧
+    publishedUids st = [10, 11] ∧
+    publishedUids (endMerge st ⟨[0, 1], mergeEntries st.queue [a, b] (mergeTarget true 6 7) 2, 1⟩) = [11] := by
+  decide
+
 /-- Counterexample for a stale cursor: uncommitted source `a` (doc 10, key 1) was flushed before
 delete(key 1), source `b` holds doc 20 with key 1 added AFTER the delete (an upsert). A policy
 merge `[a, b]` with target = current stamp applies the delete to `a` only; taking the merged
@@ -400,5 +501,141 @@ theorem C04_first_cursor_counterexample :
     publishedUids (commit (endMerge st ⟨[2, 1], mergeEntries q [b, a] 0 3, 0⟩) 6) = [20, 10] ∧
     publishedUids (commit (endMerge st ⟨[1, 2], mergeEntries q [a, b] 0 3, 0⟩) 6) = [] := by
   decide
+
+/-! ## all event sequences -/
+
+/-- MERGES ARE INVISIBLE, for every event sequence. Run the writer machine (`Sys`: worker
+flushes, `delete_term`, `commit`, `rollback`, `delete_all_documents`, merge starts on whatever
+ids — committed or uncommitted register, target opstamp by `mergeTarget`, result computed by
+`merge()` from the entries as they are then — and merge ends, interleaved in any order, one merge
+in flight at a time) next to the sequential replay `Abs`, in which `startMerge` / `endMerge` do
+nothing. After ANY sequence of events the documents a searcher sees and the documents the next
+commit would publish are those of the replay, up to order. No hypothesis about cursors remains:
+that the merged entry takes its cursor AFTER `advance_deletes` (so all sources share it), that
+committed sources are already advanced to the target, the `contains_all` staleness rule and
+the reconciliation in `end_merge` are exactly what the invariant (`Proofs/MergeInv.lean`, `Inv`,
+`RunInv`) needs to go through every step. -/
+theorem C04_merge_invisible_all_traces (evs : List Ev) :
+    (pubDocs (Sys.init.run evs).st).Perm (Abs.init.run evs).pub ∧
+    (pendDocs (Sys.init.run evs).st).Perm (Abs.init.run evs).pend :=
+  (run_all evs Sys.init Abs.init inv_init rel_init).2
+
+/-- The same theorem about the machine the DRIVER executes (`runG`), whose behaviour at the four
+places the seeded changes touched is selected by guards extracted from the current source
+(`Gen/MergeGuards.lean`): cursor cloned after the `advance_deletes` loop, target opstamp chosen
+by register, `end_merge` cancelled unless one register holds ALL sources, reconciliation before
+the swap. While the guards hold, `runG = run`; when one flips, the equality lemmas no longer
+compile (this theorem is reported broken) and the executable model follows the changed code. -/
+theorem C04_merge_invisible_all_traces_extracted (evs : List Ev) :
+    (pubDocs (Sys.init.runG evs).st).Perm (Abs.init.run evs).pub ∧
+    (pendDocs (Sys.init.runG evs).st).Perm (Abs.init.run evs).pend := by
+  rw [runG_eq]
+  exact C04_merge_invisible_all_traces evs
+
+example : Gen.MERGE_CURSOR_AFTER_ADVANCE = 1 ∧ Gen.MERGE_TARGET_BY_REGISTER = 1
+    ∧ Gen.END_MERGE_REQUIRES_ALL_SOURCES = 1 ∧ Gen.END_MERGE_RECONCILES = 1 := by decide
+
+/-- in terms of the ids a searcher sees (`publishedUids` is what the driver prints) -/
+theorem C04_published_uids_all_traces (evs : List Ev) :
+    (publishedUids (Sys.init.run evs).st).Perm ((Abs.init.run evs).pub.map (·.uid)) := by
+  have h := (C04_merge_invisible_all_traces evs).1
+  have e : publishedUids (Sys.init.run evs).st = (pubDocs (Sys.init.run evs).st).map (·.uid) := by
+    simp only [publishedUids, pubDocs, List.map_flatten, List.map_map]
+    rfl
+  rw [e]
+  exact h.map _
+
+/-- a merge that became stale is never published: whatever happened in between (any event
+sequence), a merge whose updater was replaced by a rollback, or whose sources are no longer all
+in one register, leaves the registers and meta.json untouched when it ends — and by
+`C04_merge_invisible_all_traces` every merge that IS swapped in carries exactly its sources'
+documents. -/
+theorem C04_stale_merge_never_published (evs : List Ev) (r : Running)
+    (hrun : (Sys.init.run evs).running = some r)
+    (h : r.epoch ≠ (Sys.init.run evs).st.epoch ∨
+      (containsAll (Sys.init.run evs).st.uncommitted r.sources = false ∧
+       containsAll (Sys.init.run evs).st.committed r.sources = false)) :
+    ((Sys.init.run evs).step .endMerge).st = (Sys.init.run evs).st := by
+  simp only [Sys.step, hrun]
+  exact C04_merge_invisible_discarded true _ r h
+
+/-- MERGES ARE INVISIBLE with ANY NUMBER OF MERGES IN FLIGHT. `SysM` keeps a list of running
+merges; a merge may be started at any time on any ids — also on segments that another running
+merge is already consuming (`IndexWriter::merge` does not consult the merge inventory) — and the
+merges end in any order. After every event sequence the published documents and the documents
+the next commit would publish are those of the sequential replay. This is where the
+`contains_all` rule of `end_merge` carries the proof: when a merge ends, every other merge that
+shared a source with it has lost that source from its register and will be cancelled
+(`runInv_after_other_end`), while merges over disjoint sources are untouched. The machine is the
+guard-selected one the driver executes (`stepG` / `endMergeG`). -/
+theorem C04_merge_invisible_concurrent_merges (evs : List EvM) :
+    (pubDocs (SysM.init.run evs).st).Perm (Abs.init.run (evs.map EvM.toEv)).pub ∧
+    (pendDocs (SysM.init.run evs).st).Perm (Abs.init.run (evs.map EvM.toEv)).pend :=
+  (runM_all evs SysM.init Abs.init invM_init rel_init).2
+
+/-- A STALE MERGE IS NEVER PUBLISHED (any number of merges in flight, any history): when the
+i-th running merge ends and some source of it is no longer registered — not ALL of its sources
+are in the uncommitted register and not ALL of them in the committed one, e.g. because another
+merge consumed one of them, or after rollback / delete-all — or its updater was replaced, the
+registers and meta.json stay exactly as they were. The rule that decides this is the extracted
+`contains_all` test (`Gen.END_MERGE_REQUIRES_ALL_SOURCES`, from `segments_status` +
+`SegmentRegister::contains_all`); `SysM.step` executes the guard-selected `endMergeG`. -/
+theorem C04_stale_merge_never_published_concurrent (evs : List EvM) (i : Nat) (r : Running)
+    (hr : (SysM.init.run evs).running[i]? = some r)
+    (h : r.epoch ≠ (SysM.init.run evs).st.epoch ∨
+      (containsAll (SysM.init.run evs).st.uncommitted r.sources = false ∧
+       containsAll (SysM.init.run evs).st.committed r.sources = false)) :
+    ((SysM.init.run evs).step (.endMerge i)).st = (SysM.init.run evs).st := by
+  simp only [SysM.step, hr, endMergeG_eq]
+  exact C04_merge_invisible_discarded true _ r h
+
+example : Gen.END_MERGE_REQUIRES_ALL_SOURCES = 1 := by decide
+
+/-- Why ALL sources must be looked up. Segments A, B, C (docs 10, 11, 12) are committed; merge
+#1 = [A, B] and merge #2 = [B, C] run at once; #2 ends first and is published (B, C → one
+segment). With the `contains_all` rule #1 is then cancelled and every document is published once;
+with a test that looks at the FIRST source only, #1 (first source A is still there) is swapped
+in too and document 11 is published twice. -/
+theorem C04_first_source_only_counterexample :
+    let a : Entry := { segId := 0, docs := [⟨10, [1]⟩], alive := [true], cursor := 0 }
+    let b : Entry := { segId := 1, docs := [⟨11, [1]⟩], alive := [true], cursor := 0 }
+    let c : Entry := { segId := 2, docs := [⟨12, [1]⟩], alive := [true], cursor := 0 }
+    let st : State := { queue := [], committed := [a, b, c], uncommitted := [], committedOpstamp := 0,
+                        published := [a, b, c], epoch := 0 }
+    let r1 : Running := ⟨[0, 1], mergeEntries [] [a, b] 0 3, 0⟩
+    let r2 : Running := ⟨[1, 2], mergeEntries [] [b, c] 0 4, 0⟩
+    publishedUids (endMerge (endMerge st r2) r1) = [10, 11, 12] ∧
+    publishedUids (endMergeFirstOnly (endMerge st r2) r1) = [11, 12, 10, 11] := by
+  decide
+
+/-- three committed segments; two merges that share segment 1 run at once, a delete is committed
+meanwhile; the first to end is swapped in (with reconciliation), the second finds a source
+missing and is cancelled; a third merge of uncommitted segments overlaps a fourth -/
+def exTraceM : List EvM :=
+  [.addSeg [⟨10, [1]⟩], .commit, .addSeg [⟨11, [2]⟩], .commit, .addSeg [⟨12, [1]⟩], .commit,
+   .startMerge [0, 1], .startMerge [1, 2], .delete 1, .commit, .endMerge 1, .endMerge 0,
+   .addSeg [⟨13, [3]⟩], .addSeg [⟨14, [3]⟩], .addSeg [⟨15, [4]⟩],
+   .startMerge [5, 6], .startMerge [6, 7], .delete 3, .endMerge 0, .endMerge 0, .commit]
+
+example : publishedUids (SysM.init.run exTraceM).st = [15, 11] := by decide
+example : (SysM.init.run (exTraceM.take 11)).st.committed.map (·.segId) = [0, 4] := by decide
+example : (SysM.init.run (exTraceM.take 12)).st.committed.map (·.segId) = [0, 4] := by decide
+example : (SysM.init.run (exTraceM.take 9)).running.length = 2 := by decide
+
+/-- a trace with everything in it: two commits, a merge of the committed segments started, a
+delete committed while it runs, the merge ends (reconciliation), a second merge of uncommitted
+segments overtaken by a rollback (discarded) -/
+def exTrace : List Ev :=
+  [.addSeg [⟨10, [1]⟩, ⟨11, [2]⟩], .commit, .addSeg [⟨12, [1]⟩], .commit,
+   .startMerge [0, 1], .delete 1, .addSeg [⟨13, [1]⟩], .commit, .endMerge,
+   .addSeg [⟨14, [3]⟩], .addSeg [⟨15, [3]⟩], .startMerge [4, 5], .delete 3, .rollback, .endMerge,
+   .addSeg [⟨16, [2]⟩], .delete 2, .commit]
+
+example : publishedUids (Sys.init.run exTrace).st = [13] := by decide
+example : publishedUids (Sys.init.run (exTrace.take 9)).st = [13, 11] := by decide
+example : (Abs.init.run exTrace).pub.map (·.uid) = [13] := by decide
+example : ((Sys.init.run (exTrace.take 9)).st.committed.map (·.segId)) = [3, 2] := by decide
+example : ∃ r, (Sys.init.run (exTrace.take 14)).running = some r
+    ∧ r.epoch ≠ (Sys.init.run (exTrace.take 14)).st.epoch := ⟨_, rfl, by decide⟩
 
 end TantivyModel.C04
